@@ -175,14 +175,20 @@ impl PropCase for Tile {
 pub struct HugeNoise {
     pub n: u64,
     pub fill: u8,
+    /// what follows the noise: 'F' = a frame, 'f' = finalize(), 'r' = reset()
+    pub end: char,
 }
 
 impl PropCase for HugeNoise {
     fn to_case(&self) -> Case {
-        Case::new("hugenoise").s("n", &self.n.to_string()).n("fill", self.fill as usize)
+        Case::new("hugenoise").s("n", &self.n.to_string()).n("fill", self.fill as usize).s("end", &self.end.to_string())
     }
     fn from_case(c: &Case) -> Result<Self, String> {
-        Ok(HugeNoise { n: c.get("n")?.parse::<u64>().map_err(|e| e.to_string())?, fill: c.num("fill")? as u8 })
+        Ok(HugeNoise {
+            n: c.get("n")?.parse::<u64>().map_err(|e| e.to_string())?,
+            fill: c.num("fill")? as u8,
+            end: c.get_or("end", "F").chars().next().unwrap_or('F'),
+        })
     }
     fn check(&self, ctx: &mut Ctx) -> Verdict {
         let q = vec![0x0a, 0x0b, 0x0c];
@@ -195,6 +201,22 @@ impl PropCase for HugeNoise {
             if i & 0x0fff_ffff == 0 {
                 ctx.heartbeat();
             }
+        }
+        if self.end != 'F' {
+            // the noise is all there is: finalize() / reset() must report exactly n
+            let got = if self.end == 'r' {
+                d.reset() as u64
+            } else {
+                match d.finalize() {
+                    Some(DErr::Discarded(k)) => k as u64,
+                    other => return Err(Fail::new("tiling/huge-noise", format!("Some(DiscardedBytes({}))", self.n), format!("{:?}", other))),
+                }
+            };
+            ensure!(got == self.n, "tiling/huge-noise", format!("{} bytes reported at the end", self.n), format!("{}", got));
+            ctx.maxi("max_discard_count_verified", self.n);
+            ctx.bump("huge-noise-cases");
+            ctx.class_s(&format!("huge noise 2^{} fill {:02x} end {}", 63 - self.n.leading_zeros(), self.fill, self.end));
+            return Ok(());
         }
         let mut evs = Vec::new();
         for (i, b) in f.iter().enumerate() {
@@ -370,10 +392,16 @@ pub fn run(ctx: &mut Ctx) {
     }
     // noise beyond 2^32 bytes (thorough only, one worker per fill byte)
     if !ctx.quick() {
-        for (i, fill) in [0x55u8, 0x1b].iter().enumerate() {
+        for (i, (fill, end)) in [(0x55u8, 'F'), (0x1b, 'F'), (0x55, 'f'), (0x00, 'r')].iter().enumerate() {
             if ctx.mine(i as u64 + 11) {
-                ctx.eval(&HugeNoise { n: (1u64 << 32) + 5, fill: *fill });
+                ctx.eval(&HugeNoise { n: (1u64 << 32) + 5, fill: *fill, end: *end });
             }
+        }
+    }
+    // 2^24 bytes of noise also in the quick tier (cheap when fed byte by byte)
+    for (i, (fill, end)) in [(0x55u8, 'F'), (0x1b, 'f'), (0x01, 'r')].iter().enumerate() {
+        if ctx.mine(i as u64 + 3) {
+            ctx.eval(&HugeNoise { n: (1u64 << 24) + 3, fill: *fill, end: *end });
         }
     }
     // adversarial streams and concatenations, every error kind interleaved
